@@ -21,7 +21,26 @@ def run_threads(scn, observers=()):
     if scn.get("linecov"):
         sched.linecov = set()
     try:
-        pool = build_pool(scn, world, sync=True)
+        if sched.linecov is not None:
+            # the pool is constructed on the host thread: trace that too (C18 lock-step)
+            import sys as _sys
+
+            def _tr(frame, event, arg, cov=sched.linecov):
+                fn = frame.f_code.co_filename
+                if "/httpcore/_sync/" in fn:
+                    def _loc(frame, event, arg):
+                        if event == "line":
+                            cov.add((frame.f_code.co_filename, frame.f_lineno))
+                        return _loc
+                    return _loc
+                return None
+            _sys.settrace(_tr)
+            try:
+                pool = build_pool(scn, world, sync=True)
+            finally:
+                _sys.settrace(None)
+        else:
+            pool = build_pool(scn, world, sync=True)
         world.pool = pool
         api = SyncApi(world, pool)
         world.api = api
